@@ -9,6 +9,7 @@ package main
 //   G t2.dec      mutated programs that contain div/sqrt (float results, not modelled exactly)
 
 import (
+	"bytes"
 	"encoding/hex"
 	"fmt"
 	"math"
@@ -1983,4 +1984,387 @@ func t2targeted(c *Ctx) []string {
 		}
 	}
 	return out
+}
+
+// ================================================================ C05: whole CFF files (stream t2.cfffile)
+//
+// D t2.cfffile: a minimal CFF file is assembled BY THE HARNESS from the description in the case line (simple or
+// CID-keyed, 1-3 Font DICTs with different local subroutine tables and different default/nominal widths, widths
+// stored as integer or as real DICT operands, glyphs spread over the Font DICTs), read by the real cff.Read, and
+// every glyph is compared with the specification interpreter run with the subroutines and widths of ITS Font DICT
+// as the description states them.
+//
+//   cid=0|1 gs=<table> fds=<fd>|<fd>… glyphs=<fdIndex>:<hex>;…
+//   <table> = n~defaultBodyHex~idx:hex,idx:hex      <fd> = dw~nw~i|r~<table>   (dw, nw in 16.16 units)
+
+type t2cffTable struct {
+	n    int
+	dflt []byte
+	ents map[int][]byte
+	ord  []int
+}
+
+func (t *t2cffTable) String() string {
+	parts := make([]string, 0, len(t.ord))
+	for _, i := range t.ord {
+		parts = append(parts, fmt.Sprintf("%d:%s", i, hx(t.ents[i])))
+	}
+	return fmt.Sprintf("%d~%s~%s", t.n, hx(t.dflt), strings.Join(parts, ","))
+}
+
+func (t *t2cffTable) blobs() [][]byte {
+	out := make([][]byte, t.n)
+	for i := range out {
+		out[i] = t.dflt
+	}
+	for i, b := range t.ents {
+		if i >= 0 && i < t.n {
+			out[i] = b
+		}
+	}
+	return out
+}
+
+func t2parseCffTable(s string) *t2cffTable {
+	p := strings.Split(s, "~")
+	if len(p) != 3 {
+		panic("bad table")
+	}
+	t := &t2cffTable{ents: map[int][]byte{}}
+	fmt.Sscan(p[0], &t.n)
+	t.dflt = mustHex(p[1])
+	if p[2] != "" {
+		for _, e := range strings.Split(p[2], ",") {
+			k := strings.IndexByte(e, ':')
+			var i int
+			fmt.Sscan(e[:k], &i)
+			t.ents[i] = mustHex(e[k+1:])
+			t.ord = append(t.ord, i)
+		}
+	}
+	return t
+}
+
+func t2cffIndex(blobs [][]byte) []byte {
+	n := len(blobs)
+	out := []byte{byte(n >> 8), byte(n)}
+	if n == 0 {
+		return out
+	}
+	out = append(out, 4)
+	off := 1
+	put := func(v int) { out = append(out, byte(v>>24), byte(v>>16), byte(v>>8), byte(v)) }
+	put(off)
+	for _, b := range blobs {
+		off += len(b)
+		put(off)
+	}
+	for _, b := range blobs {
+		out = append(out, b...)
+	}
+	return out
+}
+
+func t2dictInt(v int) []byte { return []byte{29, byte(v >> 24), byte(v >> 16), byte(v >> 8), byte(v)} }
+
+// t2dictReal encodes units/65536 (a multiple of 1/4) as a DICT real operand (0x1e, nibbles)
+func t2dictReal(units int64) []byte {
+	s := strings.TrimRight(strings.TrimRight(fmt.Sprintf("%.2f", float64(units)/65536), "0"), ".")
+	if s == "" || s == "-" {
+		s = "0"
+	}
+	var nib []byte
+	for _, ch := range s {
+		switch {
+		case ch >= '0' && ch <= '9':
+			nib = append(nib, byte(ch-'0'))
+		case ch == '.':
+			nib = append(nib, 0xa)
+		case ch == '-':
+			nib = append(nib, 0xe)
+		}
+	}
+	nib = append(nib, 0xf)
+	if len(nib)%2 == 1 {
+		nib = append(nib, 0xf)
+	}
+	out := []byte{30}
+	for i := 0; i < len(nib); i += 2 {
+		out = append(out, nib[i]<<4|nib[i+1])
+	}
+	return out
+}
+
+type t2cffFD struct {
+	dw, nw int64
+	real   bool
+	subrs  *t2cffTable
+}
+
+func t2cffPrivate(fd t2cffFD) []byte {
+	num := func(u int64) []byte {
+		if fd.real {
+			return t2dictReal(u)
+		}
+		return t2dictInt(int(u / 65536))
+	}
+	var d []byte
+	d = append(d, num(fd.dw)...)
+	d = append(d, 20)
+	d = append(d, num(fd.nw)...)
+	d = append(d, 21)
+	if fd.subrs.n > 0 {
+		// the local Subr INDEX follows the Private DICT directly: offset = size of this DICT
+		size := len(d) + 5 + 1
+		d = append(d, t2dictInt(size)...)
+		d = append(d, 19)
+	}
+	return d
+}
+
+// t2assembleCFF builds the file
+func t2assembleCFF(cid bool, gs *t2cffTable, fds []t2cffFD, glyphFD []int, glyphs [][]byte) []byte {
+	hdr := []byte{1, 0, 4, 4}
+	nameIdx := t2cffIndex([][]byte{[]byte("T")})
+	strIdx := t2cffIndex(nil)
+	gsIdx := t2cffIndex(gs.blobs())
+	csIdx := t2cffIndex(glyphs)
+	n := len(glyphs)
+	var privs, lsubrs [][]byte
+	for _, fd := range fds {
+		privs = append(privs, t2cffPrivate(fd))
+		if fd.subrs.n > 0 {
+			lsubrs = append(lsubrs, t2cffIndex(fd.subrs.blobs()))
+		} else {
+			lsubrs = append(lsubrs, nil)
+		}
+	}
+	build := func(offs map[string]int, privOff []int) ([]byte, []byte) {
+		var top []byte
+		if cid {
+			top = append(top, t2dictInt(1)...)
+			top = append(top, t2dictInt(2)...)
+			top = append(top, t2dictInt(0)...)
+			top = append(top, 12, 30)
+			top = append(top, t2dictInt(offs["charset"])...)
+			top = append(top, 15)
+			top = append(top, t2dictInt(offs["fdarray"])...)
+			top = append(top, 12, 36)
+			top = append(top, t2dictInt(offs["fdselect"])...)
+			top = append(top, 12, 37)
+			top = append(top, t2dictInt(n)...)
+			top = append(top, 12, 34)
+		} else {
+			top = append(top, t2dictInt(len(privs[0]))...)
+			top = append(top, t2dictInt(privOff[0])...)
+			top = append(top, 18)
+		}
+		top = append(top, t2dictInt(offs["charstrings"])...)
+		top = append(top, 17)
+		var fdDicts [][]byte
+		if cid {
+			for i := range fds {
+				var d []byte
+				d = append(d, t2dictInt(len(privs[i]))...)
+				d = append(d, t2dictInt(privOff[i])...)
+				d = append(d, 18)
+				fdDicts = append(fdDicts, d)
+			}
+		}
+		return t2cffIndex([][]byte{top}), t2cffIndex(fdDicts)
+	}
+	offs := map[string]int{}
+	privOff := make([]int, len(fds))
+	topIdx, fdIdx := build(offs, privOff) // sizes do not depend on the offsets (5-byte integers)
+	pos := len(hdr) + len(nameIdx) + len(topIdx) + len(strIdx) + len(gsIdx)
+	var charset, fdsel []byte
+	if cid {
+		charset = []byte{2, 0, 1, byte((n - 2) >> 8), byte(n - 2)}
+		offs["charset"] = pos
+		pos += len(charset)
+		fdsel = append([]byte{0}, func() []byte {
+			b := make([]byte, n)
+			for i, f := range glyphFD {
+				b[i] = byte(f)
+			}
+			return b
+		}()...)
+		offs["fdselect"] = pos
+		pos += len(fdsel)
+	}
+	offs["charstrings"] = pos
+	pos += len(csIdx)
+	if cid {
+		offs["fdarray"] = pos
+		pos += len(fdIdx)
+	}
+	for i := range fds {
+		privOff[i] = pos
+		pos += len(privs[i]) + len(lsubrs[i])
+	}
+	topIdx, fdIdx = build(offs, privOff)
+	out := append([]byte{}, hdr...)
+	out = append(out, nameIdx...)
+	out = append(out, topIdx...)
+	out = append(out, strIdx...)
+	out = append(out, gsIdx...)
+	out = append(out, charset...)
+	out = append(out, fdsel...)
+	out = append(out, csIdx...)
+	if cid {
+		out = append(out, fdIdx...)
+	}
+	for i := range fds {
+		out = append(out, privs[i]...)
+		out = append(out, lsubrs[i]...)
+	}
+	return out
+}
+
+func t2parseCffCase(f Fields) (bool, *t2cffTable, []t2cffFD, []int, [][]byte) {
+	cid := f["cid"] == "1"
+	gs := t2parseCffTable(f["gs"])
+	var fds []t2cffFD
+	for _, s := range strings.Split(f["fds"], "|") {
+		p := strings.SplitN(s, "~", 4)
+		if len(p) != 4 {
+			panic("bad fd")
+		}
+		var fd t2cffFD
+		fmt.Sscan(p[0], &fd.dw)
+		fmt.Sscan(p[1], &fd.nw)
+		fd.real = p[2] == "r"
+		fd.subrs = t2parseCffTable(p[3])
+		fds = append(fds, fd)
+	}
+	var gfd []int
+	var glyphs [][]byte
+	for _, s := range strings.Split(f["glyphs"], ";") {
+		k := strings.IndexByte(s, ':')
+		var i int
+		fmt.Sscan(s[:k], &i)
+		gfd = append(gfd, i)
+		glyphs = append(glyphs, mustHex(s[k+1:]))
+	}
+	return cid, gs, fds, gfd, glyphs
+}
+
+func init() {
+	ops["t2.cfffile"] = func(f Fields) string {
+		cid, gs, fds, gfd, glyphs := t2parseCffCase(f)
+		data := t2assembleCFF(cid, gs, fds, gfd, glyphs)
+		font, err := cff.Read(bytes.NewReader(data))
+		if err != nil {
+			return "readerr:" + strings.ReplaceAll(err.Error(), " ", "_")
+		}
+		out := make([]string, len(font.Glyphs))
+		for i, g := range font.Glyphs {
+			out[i] = t2showGlyph(g)
+		}
+		return strings.Join(out, " | ")
+	}
+	areas["t2cff"] = genT2cff
+}
+
+func genT2cff(c *Ctx) {
+	r := c.Rng
+	num := func(n int) []byte { return t2num(int64(n)*65536, 0) }
+	cat := func(bs ...[]byte) []byte {
+		var out []byte
+		for _, b := range bs {
+			out = append(out, b...)
+		}
+		return out
+	}
+	for i := 0; i < c.N; i++ {
+		cid := r.Chance(2, 3)
+		nfd := 1
+		if cid {
+			nfd = r.Range(1, 3)
+		}
+		gs := &t2cffTable{n: Pick(r, []int{0, 1, 3, 1239, 1240}), dflt: []byte{11}, ents: map[int][]byte{}}
+		if gs.n > 0 {
+			for _, k := range []int{0, gs.n - 1} {
+				if _, ok := gs.ents[k]; !ok {
+					gs.ents[k] = cat(num(5+k%40), num(6), []byte{5, 11})
+					gs.ord = append(gs.ord, k)
+				}
+			}
+		}
+		fds := make([]t2cffFD, nfd)
+		for j := range fds {
+			fd := &fds[j]
+			fd.real = r.Bool()
+			fd.dw = int64(r.Range(200, 900)) * 65536
+			fd.nw = int64(r.Range(-100, 700)) * 65536
+			if fd.real && r.Bool() {
+				fd.dw += int64(r.Range(1, 3)) * 16384
+				fd.nw += int64(r.Range(1, 3)) * 16384
+			}
+			n := Pick(r, []int{0, 1, 2, 5, 1239, 1240, 1241})
+			if r.Chance(1, 12) {
+				n = Pick(r, []int{33899, 33900})
+			}
+			fd.subrs = &t2cffTable{n: n, dflt: []byte{11}, ents: map[int][]byte{}}
+			for _, k := range []int{0, n / 2, n - 1} {
+				if k < 0 || k >= n {
+					continue
+				}
+				if _, ok := fd.subrs.ents[k]; !ok {
+					// a body that identifies Font DICT and index
+					fd.subrs.ents[k] = cat(num(10+7*j+k%30), num(3+j), []byte{5, 11})
+					fd.subrs.ord = append(fd.subrs.ord, k)
+				}
+			}
+			c.Stat("t2cff.local-subrs", fmt.Sprint(n))
+			c.Stat("t2cff.width-operands", map[bool]string{true: "real", false: "integer"}[fd.real])
+		}
+		ng := r.Range(2, 8)
+		var gfd []int
+		var glyphs []string
+		for g := 0; g < ng; g++ {
+			f := r.Intn(nfd)
+			if g < nfd {
+				f = g // every Font DICT is used, the first glyphs by the first Font DICTs
+			}
+			fd := fds[f]
+			var code []byte
+			if r.Bool() { // explicit width: w - nominalWidthX is the first operand
+				code = append(code, num(r.Range(-50, 400))...)
+				c.Stat("t2cff.glyph-width", "explicit (nominal + operand)")
+			} else {
+				c.Stat("t2cff.glyph-width", "default")
+			}
+			code = append(code, cat(num(10+g), num(20), []byte{21})...)
+			if fd.subrs.n > 0 {
+				k := Pick(r, fd.subrs.ord)
+				code = append(code, cat(num(k-t2bias(fd.subrs.n)), []byte{10})...)
+			}
+			if gs.n > 0 {
+				k := Pick(r, gs.ord)
+				code = append(code, cat(num(k-t2bias(gs.n)), []byte{29})...)
+			}
+			code = append(code, 14)
+			gfd = append(gfd, f)
+			glyphs = append(glyphs, fmt.Sprintf("%d:%s", f, hx(code)))
+		}
+		fdStrs := make([]string, nfd)
+		for j, fd := range fds {
+			e := "i"
+			if fd.real {
+				e = "r"
+			}
+			fdStrs[j] = fmt.Sprintf("%d~%d~%s~%s", fd.dw, fd.nw, e, fd.subrs.String())
+		}
+		c.Stat("t2cff.kind", map[bool]string{true: fmt.Sprintf("CID-keyed, %d Font DICTs", nfd), false: "simple"}[cid])
+		cidS := "0"
+		if cid {
+			cidS = "1"
+		}
+		out := c.Case(Direct, "t2.cfffile", fmt.Sprintf("cid=%s gs=%s fds=%s glyphs=%s", cidS, gs.String(),
+			strings.Join(fdStrs, "|"), strings.Join(glyphs, ";")), true)
+		if strings.HasPrefix(out, "readerr") || strings.HasPrefix(out, "panic") {
+			c.Stat("t2cff.ALARM", out)
+		}
+	}
 }
